@@ -562,7 +562,49 @@ def e2e_shard(args):
     return part.done()
 
 
+def effective_data_problems():
+    """The data the library works with (through a real import of the bundled files) must be the
+    name-ordered merge / concatenation computed by R-REG, entry by entry."""
+    out = []
+    got = lib.registry.get("bank")
+    exp = reg.bank_list()
+    if got != exp:
+        i = next((i for i, (a, b) in enumerate(zip(got, exp)) if a != b), min(len(got), len(exp)))
+        out.append(("library-bank-list-differs-from-the-files", exp[i] if i < len(exp) else None,
+                    got[i] if i < len(got) else None))
+    for name, index in (("bank_code", lookup.by_key()), ("bic", lookup.by_bic()), ("country", lookup.by_country())):
+        cur = lib.registry.get(name)
+        if cur != index:
+            bad = next((k for k in list(index) + list(cur) if cur.get(k) != index.get(k)), None)
+            out.append((f"library-index-{name}-differs-from-the-files", index.get(bad), cur.get(bad)))
+    table = {k: {kk: vv for kk, vv in v.items() if kk != "regex"} for k, v in lib.registry.get("iban").items()}
+    if table != reg.iban_table():
+        bad = next(k for k in list(table) + list(reg.iban_table()) if table.get(k) != reg.iban_table().get(k))
+        out.append(("library-country-table-differs-from-the-files", reg.iban_table().get(bad), table.get(bad)))
+    return out
+
+
+
+
+def effective_shard(args):
+    """Bundled files through the real import: the library's tables and indexes equal the reference
+    composition right after import and still after the API prelude."""
+    from ..engine import activity
+    part = par.Part()
+    for phase in ("after-import", "after-API-activity"):
+        if phase == "after-API-activity":
+            part.stat("prelude_calls", activity.exercise_api(report.SEED))
+        part["evals"] += 5
+        part.seen.update(hash((phase, i)) for i in range(5))
+        for sig, exp, obs in effective_data_problems():
+            part.violation(f"{sig} [{phase}]", {"kind": "c18effective", "phase": phase}, exp, obs)
+    part.stat("effective_data_comparisons", 2)
+    return part.done()
+
+
 def shard(args):
+    if args[0] == "effective":
+        return effective_shard(args)
     before = None
     if args[0] in ("ibanload", "bankload") and args[1] in (0, ("generated.json",)):
         before = sandbox.deep_snapshot()
@@ -575,6 +617,9 @@ def shard(args):
 
 def replay(case: dict) -> dict:
     k = case["kind"]
+    if k == "c18effective":
+        probs = effective_data_problems() if case["phase"] == "after-import" else []
+        return {"ok": not probs, "observed": [(p[0], p[2]) for p in probs]}
     if k == "c18merge":
         l, r = copy.deepcopy(case["left"]), copy.deepcopy(case["right"])
         kk, got = lib.outcome(lib.registry.merge_dicts, l, r)
@@ -613,7 +658,8 @@ def main(tier: str) -> int:
     nv2 = len(v2_documents(tier))
     shards += [("bankload", i, min(nv2, i + 12), tier) for i in range(0, nv2, 12)]
     shards += [("e2e", i, tier) for i in range(len(e2e_configs()))]
-    shards.sort(key=lambda s: {"e2e": 0, "ibanload": 1, "bankload": 2, "merge": 3, "merge3": 3}[s[0]])
+    shards.append(("effective", tier))
+    shards.sort(key=lambda s: {"e2e": 0, "effective": 0, "ibanload": 1, "bankload": 2, "merge": 3, "merge3": 3}[s[0]])
     par.run_shards(run, shard, shards)
     run.extra.update({"merge_documents": ndocs, "merge_pairs": ndocs * ndocs, "max_nodes": max_nodes,
                       "overlays": list(OVERLAYS), "overlay_file_names": OVERLAY_NAMES,
